@@ -27,12 +27,17 @@ var c04Names = func() []string {
 		// file names are byte strings: names in a legacy encoding (Latin-1 é / è, lone 0xFF / 0xFE) are not
 		// valid UTF-8, and the two Unicode spellings of one visible name are different names. Written
 		// %XX here so that a saved case survives JSON; disk() gives the bytes.
-		"caf%E9.txt", "caf%E8.txt", "dir/%FF", "dir/%FE", "na%C3%AFve", "nai%CC%88ve"}
+		"caf%E9.txt", "caf%E8.txt", "dir/%FF", "dir/%FE", "na%C3%AFve", "nai%CC%88ve",
+		// a path that changes kind: while it is not one of the files it exists as an (empty) directory
+		// and is handed to Hash along with the files, as any directory a glob matches is
+		swingName}
 	for i := 0; i < 30; i++ {
 		out = append(out, fmt.Sprintf("f%02d", i))
 	}
 	return out
 }()
+
+const swingName = "swing"
 
 // disk turns the %XX escapes of a universe name into the bytes of the name on disk.
 func disk(n string) string {
@@ -140,6 +145,17 @@ func syncTree(root string, files map[string]string) error {
 	for _, n := range c04Names {
 		p := filepath.Join(root, filepath.FromSlash(disk(n)))
 		want, ok := files[n]
+		if n == swingName {
+			if st, err := os.Lstat(p); err == nil && st.IsDir() == ok {
+				_ = os.Remove(p) // it is of the other kind now
+			}
+			if !ok {
+				if err := os.Mkdir(p, 0o755); err != nil && !os.IsExist(err) {
+					return err
+				}
+				continue
+			}
+		}
 		if !ok {
 			if err := os.Remove(p); err != nil && !os.IsNotExist(err) {
 				return err
@@ -188,6 +204,9 @@ func execDigest(s *ev.Shard, root string, book *digestBook, c DigestCase) *rp.Fa
 	// demands that they all agree.
 	digestOf := func(step string) (string, *rp.Fail) {
 		base := absList(root, order)
+		if _, isFile := files[swingName]; !isFile {
+			base = append(base, filepath.Join(root, swingName)) // a directory for now
+		}
 		variants := [][]string{base}
 		rev := make([]string, len(base))
 		for i, p := range base {
